@@ -1,6 +1,6 @@
 """C05 — try_join: Ok iff all Ok (positional); the first observed error short-circuits."""
 from .. import families, scan
-from . import joinlike, flow, common, c02, c03
+from . import joinlike, flow, common, c02, c03, c01
 
 PROPERTY = "C05"
 LEVEL = "other"
@@ -20,6 +20,7 @@ ASSUMPTIONS = [
     "destructor behaviour for Ready slots and pending children is decided by C02.DROP",
 ]
 RULES = {
+    "C05.LIVE": "premises from the wake protocol, re-checked here for this family: task waker registered first, child polled with its own sub-waker (or the caller's context), no readiness lock across a child poll, a cleared bit is followed by a poll, re-arm after an item, readiness primitives / Wake::wake forward correctly",
     "C05.POS": "child's Ok payload is written exactly once, to the child's own slot; Ok result is the positional slot container",
     "C05.CNT": "counter discipline and guard of the Ok return (as C04.CNT)",
     "C05.ZERO": "zero-length world (array, Vec) returns Ready(Ok) without polling; try_join of () is straight-line Ready(Ok)",
@@ -37,6 +38,7 @@ def run(ctx):
         ctx.current_config = cfg
         M = ctx.model(cfg)
         units = families.subwaker_units(M, ("try_join",), groups=False)
+        c01.live_premises(ctx, M, units, "C05.LIVE")
         for u in units:
             joinlike.rule_pos(ctx, M, u, "C05.POS")
             joinlike.rule_result(ctx, M, u, "C05.POS")
